@@ -11,7 +11,7 @@ from ..runner import Outcome, fail
 ID = 'C05'
 LEVEL = 'exploration'
 RULE = ('Rule-based state machine over encrypted repositories (both ciphers, all key sizes and hash families; init, add-key of '
-        'all kinds, snapshot with notes, occasional bulk snapshots of >1000 chunks, delete, clean, concurrent pairs; fresh Repository objects and long-lived sessions incl. the object that ran init). Observer view = every object name and every byte '
+        'all kinds, snapshot with notes, occasional bulk snapshots of >1000 chunks, snapshots during which a file vanishes before it is read, delete, clean, concurrent pairs; with no cache directory, one of its own, or one shared with another (plain or encrypted) repository; fresh Repository objects and long-lived sessions incl. the object that ran init). Observer view = every object name and every byte '
         'ever uploaded (backend history, so overwritten/deleted objects count), the emitted key files and the stdout of '
         'init/add-key. After every step the new part of the view is scanned for needles in raw, hex (both cases), base64 '
         '(standard and url-safe, three alignments) and JSON-escaped form: 24-byte slices of PRNG file content at several '
@@ -107,6 +107,8 @@ def invariant(sim, objs):
         P.add(f'userkey:user{u.uid}', rd.userkey)
         for k in ('shared_key', 'mac_params', 'chunker_params', 'shared_kdf_params'):
             P.add(f'{k}:user{u.uid}', rd.private[k])
+    for nm in sim.secret_names:
+        P.add('path-component:' + nm[:12], nm)
     for s in sim.snaps:
         if getattr(s, '_needles', False):
             continue
@@ -262,7 +264,7 @@ def outcome_of(sim, case):
 def machine(tier, ctx):
     import sys
     return hist.make_machine(sys.modules[__name__], tier, ctx, checks=CHECKS, extra_invariant=invariant, cfg_strategy=config(),
-                             weights=dict(snapshot=5, add_user=2, delete=2, clean=1, restore=0, list=0, concurrent=1, bulk=1))
+                             weights=dict(snapshot=5, add_user=2, delete=2, clean=1, restore=0, list=0, concurrent=1, bulk=1, vanish=1))
 
 
 def run_case(case):
